@@ -8,13 +8,13 @@ CHECKS = {
    text="Abstract recipes (sections, steps, text paragraphs, ingredients/cookware/timers with all value kinds, and at level Ext modifiers, aliases, notes, references, intermediate references, mode switches, inline quantities, YAML front matter) are generated, printed with a random spelling (spacing, soft wraps, comments, escapes, blank/comment lines, section styles, `>>` vs front matter, CRLF) and parsed by the canonical resp. extended parser; every public field of the result is compared with the image computed by an independent reference resolver. Bounded random search: sizes <= 10 blocks x 7 items, case counts fixed per tier.",
    note="Trusted: the harness' reference resolver (written from extensions.md and the statement), its text normalisation (blank runs collapsed, step ends trimmed) and serde_yaml as the YAML reader of the expected front matter values.", ref="DESIGN.md section 3 (C01)"),
  "C03": dict(tech="bounded exhaustive enumeration over a token alphabet + property-based testing (token soup, line documents, generated recipes and their mutations) with a catch_unwind/watchdog totality oracle; libFuzzer campaign in the thorough tier",
-   text="Every sequence of <= 3 (quick) / 4 (thorough) tokens of a 62-token alphabet (markers, comment delimiters, blanks incl. NBSP / U+3000 / BOM, NUL, U+2212, multi-byte characters) and <= 5/6 tokens of a 17-token component alphabet, plus random soups (with arbitrary characters and exotic blanks), line documents (incl. 6-13 `>>` entries), generated recipes (three profiles: default, section-heavy, metadata-heavy) and their mutations (token edits, arbitrary characters, exotic blanks, block comments, repeated pieces) are pushed through every public consumer (events, metadata iterator, AST, parse, metadata-only parse, report rendering, accessors, scaling, conversion, grouping, listing, categorising, serialising) under debug assertions and overflow checks; a panic or a missed 20 s deadline is a violation.",
+   text="Every sequence of <= 3 (quick) / 4 (thorough) tokens of a 62-token alphabet (markers, comment delimiters, blanks incl. NBSP / U+3000 / BOM, NUL, U+2212, multi-byte characters) and <= 5/6 tokens of a 17-token component alphabet, plus random soups (with arbitrary characters and exotic blanks), line documents (incl. 6-13 `>>` entries), generated recipes (three profiles: default, section-heavy, metadata-heavy) and their mutations (token edits, arbitrary characters, exotic blanks, block comments, repeated pieces) are pushed through every public consumer (events, metadata iterator, AST, parse, metadata-only parse, report rendering, accessors, scaling, conversion, grouping, listing, categorising, serialising) also through parse_with_options / parse_metadata_with_options with a recipe-reference checker and a metadata validator, under debug assertions and overflow checks; a panic or a missed 20 s deadline is a violation. A large-inputs part repeats 65 units 3 000 / 12 000 times and builds single tokens and fields of 70 000 units, run in child processes on 2 MiB stacks so that a stack overflow (process abort) is observed.",
    note="Trusted: the 20 s deadline as a proxy for non-termination; scaling factors are finite and positive.", ref="DESIGN.md section 3 (C03)"),
  "C04": dict(tech="bounded exhaustive enumeration + property-based testing with span invariants (token tiling via the verif hook, bounds, char boundaries, fragment fidelity, ordering) and report rendering as oracle",
-   text="Same input families as C03 (multi-byte characters adjacent to every marker by construction). For each input and configuration: tokens tile the input, every event / fragment / component part / diagnostic label span is in bounds, ordered and on char boundaries, fragment text equals the input slice, content events are ordered and disjoint, and every report renders.",
+   text="Same input families as C03 (multi-byte characters adjacent to every marker by construction). For each input and configuration: tokens tile the input, every event / fragment / component part / diagnostic label span is in bounds, ordered and on char boundaries, fragment text equals the input slice, content events are ordered and disjoint, every report renders (also the reports that only parse options produce), and the derived views of every Text (text, trimmed forms, is_text_empty, located_*) agree with its fragments. The large-inputs part checks spans after tokens longer than 64 KiB.",
    note="Trusted: the hook exposing the token stream (guarded, additive). Containment of component parts is only required when the event stream has no error event.", ref="DESIGN.md section 3 (C04)"),
  "C05": dict(tech="bounded exhaustive enumeration + property-based testing with a conservation oracle (independent comment scanner vs union of event spans)",
-   text="For every explored input whose event stream has no error, each letter or digit outside comments (as delimited by an independent scanner) must lie inside the span of an emitted content event.",
+   text="For every explored input whose event stream has no error, each letter or digit outside comments (as delimited by an independent scanner) must lie inside the span of an emitted content event (also after very long tokens: large-inputs part).",
    note="Trusted: the harness' comment scanner (mirrors the documented delimiters).", ref="DESIGN.md section 3 (C05)"),
  "C06": dict(tech="bounded exhaustive enumeration + property-based testing (soups, generated recipes incl. references / modes / intermediate references, and their mutations) with a referential-consistency oracle over the public model",
    text="Every output (valid or not) of the explored inputs is walked through its public fields: index ranges and order, reference targets and back-links (exactly once, reciprocal), step / section targets, step numbering, no empty section / step / text item, timers have a name or quantity, and for valid results REF modifier <=> reference and names equal up to case.",
@@ -23,7 +23,7 @@ CHECKS = {
    text="For every explored input and configuration where both parses produce output, the ordered metadata entries of parse_metadata() equal those of parse(), and the same holds for parse_metadata_with_options() vs parse_with_options() under a pure metadata validator that excludes some keys, skips the standard checks of others and warns about others.",
    note="Both sides are the implementation under test; the relation between them is the oracle.", ref="DESIGN.md section 3 (C14)"),
  "C12": dict(tech="property-based testing (proptest) + exhaustive grid enumeration against an exact-rational oracle",
-   text="Every value k/480 (quick) or k/3840 (thorough) in (0,4]/(0,8] is enumerated against every max_den 0..=64, six accuracies and five whole-part limits, plus random values (grid, uniform, near-integers, near 2^32, arbitrary f64); each result is checked against the statement's clauses with exact rational arithmetic for the printed form. The callers (fit, convert to a system or unit, try_fraction on numbers and ranges in every bundled unit) are checked against the limits units.toml gives for the unit of the result, computed from the file by the harness. A continuous domain cannot be exhausted, so this is bounded search, not proof.",
+   text="Every value k/480 (quick) or k/3840 (thorough) in (0,4]/(0,8] is enumerated against every max_den 0..=64, six accuracies and five whole-part limits, plus random values (grid, uniform, near-integers, near 2^32, arbitrary f64); each result is checked against the statement's clauses with exact rational arithmetic for the printed form. The callers (fit, convert to a system or unit, try_fraction on numbers and ranges in every bundled unit) are checked against the limits units.toml gives for the unit of the result, computed from the files by the harness, for units.toml alone and for units.toml plus a second fractions layer with explicit limits at every level. A continuous domain cannot be exhausted, so this is bounded search, not proof.",
    note="Trusted: f64 arithmetic of the harness; documented preconditions of new_approx (accuracy in [0,1], max_den <= 64).", ref="DESIGN.md section 4 (C12)"),
 }
 def main():
